@@ -149,6 +149,10 @@ JP runC16(uint64_t runSeed, int64_t runIdx, const TierCfg &cfg) {
     }
     // Allocation faults (sampled indices).  On the unchanged tree every such execution crashes and is ignored
     // (see judgeC16); a tree that handles the failure is held to the error-return clause.
+    // Not in the sanitizer builds: there the NULL dereference of the unchanged tree is a fatal UBSan report that
+    // cannot be contained, and a sanitizer report under a fault this function is not specified to survive would
+    // say nothing about C16.
+#ifndef SIM_DELEGATE_MALLOC
     {
         int64_t n = 0;
         {
@@ -197,6 +201,7 @@ JP runC16(uint64_t runSeed, int64_t runIdx, const TierCfg &cfg) {
             }
         }
     }
+#endif
     line->set("hash", hex64(chain.h));
     st.toJson(*line);
     JP pa = JVal::arr();
